@@ -84,6 +84,10 @@ func (c RawConfiguration) handleAsyncCall(ctx context.Context, fut *Async, state
 	)
 
 	for {
+		if len(errs)+len(replies) == state.expectedReplies {
+			fut.reply, fut.err = resp, QuorumCallError{cause: Incomplete, errors: errs, replies: len(replies)}
+			return
+		}
 		select {
 		case r := <-state.replyChan:
 			if r.err != nil {
@@ -97,10 +101,6 @@ func (c RawConfiguration) handleAsyncCall(ctx context.Context, fut *Async, state
 			}
 		case <-ctx.Done():
 			fut.reply, fut.err = resp, QuorumCallError{cause: ctx.Err(), errors: errs, replies: len(replies)}
-			return
-		}
-		if len(errs)+len(replies) == state.expectedReplies {
-			fut.reply, fut.err = resp, QuorumCallError{cause: Incomplete, errors: errs, replies: len(replies)}
 			return
 		}
 	}
